@@ -235,6 +235,9 @@ class ServerRun:
             if self.rng.random() < 0.1 else self.next_id
 
     async def send(self, v: int, key: Any, pkt: bytes, script: L.Script, body: bytes = b'', note: str = '') -> Dict[str, Any]:
+        if self.sess is None or self.sess.ended or self.sess.silent:
+            # the previous request ended the session (that is recorded with that request): go on with a fresh one
+            await self.new_session(v)
         assert self.sess is not None
         files, dirs = list(self.files), list(self.dirs)
         rep = await self.sess.request(pkt, script)
